@@ -63,6 +63,19 @@ InScope(c, o) == Filed(o) => (o \in Range(kids[c]) \/ (c # ROOT /\ o \in Anc(c, 
 Attachable(c) == c = ROOT \/ (Filed(c) /\ (par[c] = None => Len(Obj[c].uid) = 1))
 Next == \E c \in Cont, o \in Objs : InScope(c, o) /\ Attachable(c) /\ Add(c, o)
 
+\* ---- growth beyond C11: VariantBase.__delitem__ (by id from the container; a dashed name walks the path).
+\* The entry disappears from the container's table; nothing else changes (the removed object keeps its parent link).
+RECURSIVE DelTarget(_, _)
+DelTarget(c, name) == IF Len(name) = 1 THEN <<c, name[1]>>
+                      ELSE IF name[1] \in DOMAIN kids[c] THEN DelTarget(kids[c][name[1]], Tail(name)) ELSE <<c, "?">>
+DelOk(c, name) == LET t == DelTarget(c, name) IN t[2] \in DOMAIN kids[t[1]]
+Del(c, name) ==
+  IF DelOk(c, name)
+  THEN LET t == DelTarget(c, name)
+       IN /\ kids' = [kids EXCEPT ![t[1]] = [k \in DOMAIN kids[t[1]] \ {t[2]} |-> kids[t[1]][k]]]
+          /\ out' = "ok" /\ UNCHANGED par
+  ELSE out' = "KeyError" /\ UNCHANGED <<kids, par>>
+
 \* ---- reachable forest
 RECURSIVE Desc(_, _)
 Desc(c, n) == IF n = 0 THEN {} ELSE Range(kids[c]) \cup UNION {Desc(d, n - 1) : d \in Range(kids[c])}
